@@ -227,4 +227,37 @@ theorem handle_errors_site_behaves_as_written (blocks : List Block) (s : Nat) (r
 example : (serveAdapted (adapt [⟨[str "5xx"], [⟨none, 211⟩]⟩, ⟨[str "404", str "4xx"], [⟨some 1, 201⟩, ⟨none, 202⟩]⟩]) 404
     ⟨0, 0, 3, 0, [], none, none, 3, []⟩).map (·.status) = some (some 202) := by decide
 
+mutual
+def groupsOfRoutesForExample : List Route → List Nat
+  | [] => []
+  | rt :: rs => groupsOfRouteForExample rt ++ groupsOfRoutesForExample rs
+def groupsOfRouteForExample : Route → List Nat
+  | .mk g _ hs _ => g :: groupsOfHandlersForExample hs
+def groupsOfHandlersForExample : List Handler → List Nat
+  | [] => []
+  | h :: hs => groupsOfHandlerForExample h ++ groupsOfHandlersForExample hs
+def groupsOfHandlerForExample : Handler → List Nat
+  | .sub rs _ _ => groupsOfRoutesForExample rs
+  | _ => []
+end
+
+/-! ### `handle` blocks: kernel-checked instances (the general statement is checked by the oracle) -/
+
+/-- `handle /a/b { handle /a/b { respond 201 }  handle { respond 202 }  respond 203 }
+     handle /a { respond 204 }   handle { handle /c { respond 205 } }   respond 206` -/
+def wHandleSite : List Node :=
+  [ .handle (some 2) [.handle (some 2) [.respond 201], .handle none [.respond 202], .respond 203],
+    .handle (some 1) [.respond 204],
+    .handle none [.handle (some 4) [.respond 205]],
+    .respond 206 ]
+
+-- the group names the adapter draws (group2 inside, group7 outside; a lone handle gets none)
+example : groupsOfRoutesForExample (adaptSite wHandleSite) = [8, 3, 0, 3, 0, 0, 8, 0, 8, 0, 0, 0] := by decide
+-- only the first matching handle of a body is evaluated, at every level; what no block answers
+-- reaches the `respond` behind the blocks
+example : (serve (adaptSite wHandleSite) false [] ⟨0, 0, 2, 0, [], none, none, 2, []⟩).status = some 201 := by decide
+example : (serve (adaptSite wHandleSite) false [] ⟨0, 0, 1, 0, [], none, none, 1, []⟩).status = some 204 := by decide
+example : (serve (adaptSite wHandleSite) false [] ⟨0, 0, 4, 0, [], none, none, 4, []⟩).status = some 205 := by decide
+example : (serve (adaptSite wHandleSite) false [] ⟨0, 0, 3, 0, [], none, none, 3, []⟩).status = some 206 := by decide
+
 end CaddyModel.C05
